@@ -20,20 +20,24 @@ theorem updLocal_comm (f : Tid → Local) {t u : Tid} (x y : Local) (h : t ≠ u
   funext w
   simp only [updLocal]
   by_cases h1 : w = t
-  · by_cases h2 : w = u
-    · exact absurd (h1.symm.trans h2) h
-    · simp [h1, h2]
-  · simp [h1]
+  · have h2 : ¬ w = u := fun e => h (h1.symm.trans e)
+    rw [if_pos h1, if_neg h2, if_pos h1]
+  · rw [if_neg h1]
+    by_cases h2 : w = u
+    · rw [if_pos h2, if_pos h2]
+    · rw [if_neg h2, if_neg h2, if_neg h1]
 
 theorem updMem_comm (m : Loc → Val) {l l' : Loc} (v v' : Val) (h : l ≠ l') :
     updMem (updMem m l' v') l v = updMem (updMem m l v) l' v' := by
   funext w
   simp only [updMem]
   by_cases h1 : w = l
-  · by_cases h2 : w = l'
-    · exact absurd (h1.symm.trans h2) h
-    · simp [h1, h2]
-  · simp [h1]
+  · have h2 : ¬ w = l' := fun e => h (h1.symm.trans e)
+    rw [if_pos h1, if_neg h2, if_pos h1]
+  · rw [if_neg h1]
+    by_cases h2 : w = l'
+    · rw [if_pos h2, if_pos h2]
+    · rw [if_neg h2, if_neg h2, if_neg h1]
 
 theorem updMem_other (m : Loc → Val) {l l' : Loc} (v : Val) (h : l' ≠ l) : updMem m l v l' = m l' := by
   simp [updMem, h]
@@ -56,6 +60,20 @@ theorem stepT_mem_other (hD : Disciplined P owner) {u : Tid} (c : Cfg Loc Val Lo
     have hne : l ≠ l' := fun e => h (e ▸ this)
     simp [updMem, hne]
 
+theorem stepT_done {t : Tid} {c : Cfg Loc Val Local} (h : P.step t (c.loc t) = .done) :
+    stepT P t c = c := by
+  unfold stepT; rw [h]
+
+theorem stepT_load {t : Tid} {c : Cfg Loc Val Local} {l : Loc} {k : Val → Local}
+    (h : P.step t (c.loc t) = .load l k) :
+    stepT P t c = { loc := updLocal c.loc t (k (c.mem l)), mem := c.mem } := by
+  unfold stepT; rw [h]
+
+theorem stepT_store {t : Tid} {c : Cfg Loc Val Local} {l : Loc} {v : Val} {n : Local}
+    (h : P.step t (c.loc t) = .store l v n) :
+    stepT P t c = { loc := updLocal c.loc t n, mem := updMem c.mem l v } := by
+  unfold stepT; rw [h]
+
 /-- **Commutation.**  Steps of two different disciplined threads commute. -/
 theorem stepT_comm (hD : Disciplined P owner) {t u : Tid} (htu : t ≠ u) (c : Cfg Loc Val Local) :
     stepT P t (stepT P u c) = stepT P u (stepT P t c) := by
@@ -64,107 +82,50 @@ theorem stepT_comm (hD : Disciplined P owner) {t u : Tid} (htu : t ≠ u) (c : C
   have h2 : (stepT P t c).loc u = c.loc u := stepT_loc_other P hut c
   cases hat : P.step t (c.loc t) with
   | done =>
-    have e1 : stepT P t c = c := by simp [stepT, hat]
-    have e2 : stepT P t (stepT P u c) = stepT P u c := by
-      simp only [stepT, h1, hat]
-    rw [e1, e2]
+    have hs : P.step t ((stepT P u c).loc t) = .done := by rw [h1]; exact hat
+    rw [stepT_done hs, stepT_done hat]
   | load l k =>
     have hl := hD.load_ok t (c.loc t) l k hat
     have hlu : owner l ≠ some u := by
       rcases hl with h | h <;> rw [h] <;> simp [htu]
     have hmem : (stepT P u c).mem l = c.mem l := stepT_mem_other hD c hlu
+    have hs : P.step t ((stepT P u c).loc t) = .load l k := by rw [h1]; exact hat
     cases hau : P.step u (c.loc u) with
     | done =>
-      have e1 : stepT P u c = c := by simp [stepT, hau]
-      have e2 : stepT P u (stepT P t c) = stepT P t c := by
-        simp only [stepT, h2, hau]
-      rw [e1, e2]
+      have hs' : P.step u ((stepT P t c).loc u) = .done := by rw [h2]; exact hau
+      rw [stepT_done hs', stepT_done hau]
     | load l' k' =>
-      have lhs : stepT P t (stepT P u c) =
-          { loc := updLocal (updLocal c.loc u (k' (c.mem l'))) t (k (c.mem l)), mem := c.mem } := by
-        have eu : stepT P u c = { c with loc := updLocal c.loc u (k' (c.mem l')) } := by
-          simp [stepT, hau]
-        have hs : P.step t ((stepT P u c).loc t) = .load l k := by rw [h1]; exact hat
-        rw [stepT, hs]
-        simp only [hmem]
-        rw [eu]
-      have rhs : stepT P u (stepT P t c) =
-          { loc := updLocal (updLocal c.loc t (k (c.mem l))) u (k' (c.mem l')), mem := c.mem } := by
-        have et : stepT P t c = { c with loc := updLocal c.loc t (k (c.mem l)) } := by
-          simp [stepT, hat]
-        have hs : P.step u ((stepT P t c).loc u) = .load l' k' := by rw [h2]; exact hau
-        rw [stepT, hs]
-        rw [et]
-      rw [lhs, rhs, updLocal_comm _ _ _ htu]
+      have hs' : P.step u ((stepT P t c).loc u) = .load l' k' := by rw [h2]; exact hau
+      rw [stepT_load hs, stepT_load hs', hmem, stepT_load hau, stepT_load hat]
+      simp only [updLocal_comm _ _ _ htu]
     | store l' v' n' =>
-      have hl' := hD.store_ok u (c.loc u) l' v' n' hau
-      have hne : l ≠ l' := fun e => hlu (e ▸ hl')
-      have lhs : stepT P t (stepT P u c) =
-          { loc := updLocal (updLocal c.loc u n') t (k (c.mem l)), mem := updMem c.mem l' v' } := by
-        have eu : stepT P u c = { loc := updLocal c.loc u n', mem := updMem c.mem l' v' } := by
-          simp [stepT, hau]
-        have hs : P.step t ((stepT P u c).loc t) = .load l k := by rw [h1]; exact hat
-        rw [stepT, hs]
-        simp only [hmem]
-        rw [eu]
-      have rhs : stepT P u (stepT P t c) =
-          { loc := updLocal (updLocal c.loc t (k (c.mem l))) u n', mem := updMem c.mem l' v' } := by
-        have et : stepT P t c = { c with loc := updLocal c.loc t (k (c.mem l)) } := by
-          simp [stepT, hat]
-        have hs : P.step u ((stepT P t c).loc u) = .store l' v' n' := by rw [h2]; exact hau
-        rw [stepT, hs]
-        rw [et]
-      rw [lhs, rhs, updLocal_comm _ _ _ htu]
+      have hs' : P.step u ((stepT P t c).loc u) = .store l' v' n' := by rw [h2]; exact hau
+      rw [stepT_load hs, stepT_store hs', hmem, stepT_store hau, stepT_load hat]
+      simp only [updLocal_comm _ _ _ htu]
   | store l v n =>
     have hl := hD.store_ok t (c.loc t) l v n hat
+    have hs : P.step t ((stepT P u c).loc t) = .store l v n := by rw [h1]; exact hat
     cases hau : P.step u (c.loc u) with
     | done =>
-      have e1 : stepT P u c = c := by simp [stepT, hau]
-      have e2 : stepT P u (stepT P t c) = stepT P t c := by
-        simp only [stepT, h2, hau]
-      rw [e1, e2]
+      have hs' : P.step u ((stepT P t c).loc u) = .done := by rw [h2]; exact hau
+      rw [stepT_done hs', stepT_done hau]
     | load l' k' =>
       have hl' := hD.load_ok u (c.loc u) l' k' hau
       have hlt : owner l' ≠ some t := by
         rcases hl' with h | h <;> rw [h] <;> simp [hut]
       have hmem : (stepT P t c).mem l' = c.mem l' := stepT_mem_other hD c hlt
-      have lhs : stepT P t (stepT P u c) =
-          { loc := updLocal (updLocal c.loc u (k' (c.mem l'))) t n, mem := updMem c.mem l v } := by
-        have eu : stepT P u c = { c with loc := updLocal c.loc u (k' (c.mem l')) } := by
-          simp [stepT, hau]
-        have hs : P.step t ((stepT P u c).loc t) = .store l v n := by rw [h1]; exact hat
-        rw [stepT, hs]
-        rw [eu]
-      have rhs : stepT P u (stepT P t c) =
-          { loc := updLocal (updLocal c.loc t n) u (k' (c.mem l')), mem := updMem c.mem l v } := by
-        have et : stepT P t c = { loc := updLocal c.loc t n, mem := updMem c.mem l v } := by
-          simp [stepT, hat]
-        have hs : P.step u ((stepT P t c).loc u) = .load l' k' := by rw [h2]; exact hau
-        rw [stepT, hs]
-        simp only [hmem]
-        rw [et]
-      rw [lhs, rhs, updLocal_comm _ _ _ htu]
+      have hs' : P.step u ((stepT P t c).loc u) = .load l' k' := by rw [h2]; exact hau
+      rw [stepT_store hs, stepT_load hs', hmem, stepT_load hau, stepT_store hat]
+      simp only [updLocal_comm _ _ _ htu]
     | store l' v' n' =>
       have hl' := hD.store_ok u (c.loc u) l' v' n' hau
       have hne : l ≠ l' := by
         intro e
         rw [e, hl'] at hl
         exact hut (Option.some.inj hl)
-      have lhs : stepT P t (stepT P u c) =
-          { loc := updLocal (updLocal c.loc u n') t n, mem := updMem (updMem c.mem l' v') l v } := by
-        have eu : stepT P u c = { loc := updLocal c.loc u n', mem := updMem c.mem l' v' } := by
-          simp [stepT, hau]
-        have hs : P.step t ((stepT P u c).loc t) = .store l v n := by rw [h1]; exact hat
-        rw [stepT, hs]
-        rw [eu]
-      have rhs : stepT P u (stepT P t c) =
-          { loc := updLocal (updLocal c.loc t n) u n', mem := updMem (updMem c.mem l v) l' v' } := by
-        have et : stepT P t c = { loc := updLocal c.loc t n, mem := updMem c.mem l v } := by
-          simp [stepT, hat]
-        have hs : P.step u ((stepT P t c).loc u) = .store l' v' n' := by rw [h2]; exact hau
-        rw [stepT, hs]
-        rw [et]
-      rw [lhs, rhs, updLocal_comm _ _ _ htu, updMem_comm _ _ _ hne]
+      have hs' : P.step u ((stepT P t c).loc u) = .store l' v' n' := by rw [h2]; exact hau
+      rw [stepT_store hs, stepT_store hs', stepT_store hau, stepT_store hat]
+      simp only [updLocal_comm _ _ _ htu, updMem_comm _ _ _ hne]
 
 /-- a run depends only on the multiset of steps: permuted schedules end in the same configuration -/
 theorem run_perm (hD : Disciplined P owner) {s s' : List Tid} (h : s.Perm s') :
@@ -192,7 +153,7 @@ theorem run_of_complete (P : Prog Loc Val Local) {c : Cfg Loc Val Local} (hc : C
   induction s with
   | nil => rfl
   | cons t s ih =>
-    have : stepT P t c = c := by simp [stepT, hc t]
+    have : stepT P t c = c := stepT_done (hc t)
     simp only [run, this, ih]
 
 /-- every access of a trace respects the discipline: writes go to the writer's own heap, reads to the
@@ -220,11 +181,11 @@ theorem trace_owner (hD : Disciplined P owner) (s : List Tid) :
         | load l k =>
           rw [hat] at hev
           cases hev
-          exact ⟨fun h => by cases h, fun _ => hD.load_ok t _ l k hat⟩
+          exact ⟨fun h => Bool.noConfusion h, fun _ => hD.load_ok t _ l k hat⟩
         | store l v n =>
           rw [hat] at hev
           cases hev
-          exact ⟨fun _ => hD.store_ok t _ l v n hat, fun h => by cases h⟩
+          exact ⟨fun _ => hD.store_ok t _ l v n hat, fun h => Bool.noConfusion h⟩
       · exact ih _ e h
 
 end AlgoVerif.C20
